@@ -386,6 +386,93 @@ class BindTf:
 PINNED_TF = BindTf()
 
 
+PINNED_HYP = {'value_case': None, 'value_strip': True, 'token_case': None, 'token_strip': False, 'key_case': None,
+              'first_wins': True, 'empty_token': False, 'empty_key': False}
+
+BIND_TABLES = (
+    [{'U1': 'a|b', 'U2': 'b|c'}],                       # a spelling listed under two units of one table
+    [{'A': 't|u'}, {'B': 't|v'}],                       # ... of two tables bound one after the other
+    [{'': 'x|y', 'U': 'a||b'}],                         # empty unit name; empty spelling inside a value
+    [{'U': ''}, {'V': '|a'}, {'W': 'a|'}],              # empty value; empty spelling at either end
+    [{'U': ' a|b '}, {'V': 'a |b'}],                    # blanks at the ends of the value / inside it
+    [{'Ub': 'Gb|gb'}, {'UB': 'GB|gB'}],                 # spellings that differ by case only
+    [{'Key Name': 'x'}],                                # unit name with capitals and a blank
+    [{}],                                               # empty table
+    [{'U': 'a'}, {'U': 'b|a'}, {'V': 'c'}],             # same unit in two tables; insertion order
+)
+
+
+def predict_binding(tables, h):
+    """the map (ordered pairs) a hypothesis about the helpers' semantics yields for a sequence of tables"""
+    m = {}
+    cm = {None: (lambda x: x), 'lower': str.lower, 'upper': str.upper}
+    for tab in tables:
+        for key, value in tab.items():
+            if not key and not h['empty_key']:
+                continue
+            k = cm[h['key_case']](key)
+            v = cm[h['value_case']](value)
+            if h['value_strip']:
+                v = v.strip()
+            for tok in v.split('|'):
+                tok = cm[h['token_case']](tok)
+                if h['token_strip']:
+                    tok = tok.strip()
+                if not tok and not h['empty_token']:
+                    continue
+                if tok in m and h['first_wins']:
+                    continue
+                m[tok] = k
+    return list(m.items())
+
+
+def hyp_tf(h):
+    return BindTf(([h['value_case']] if h['value_case'] else []) + (['strip'] if h['value_strip'] else []),
+                  ([h['token_case']] if h['token_case'] else []) + (['strip'] if h['token_strip'] else []),
+                  [h['key_case']] if h['key_case'] else [])
+
+
+def fit_binding(observe, extra=()):
+    """observe(tables) -> ordered pairs.  Returns (hypothesis that reproduces every observation | pinned, differences from
+    the PINNED semantics [(tables, got, want)], n)"""
+    import itertools
+    obs = [(t, observe(t)) for t in list(BIND_TABLES) + list(extra)]
+    diffs = [(t, o, predict_binding(t, PINNED_HYP)) for t, o in obs if o != predict_binding(t, PINNED_HYP)]
+    if not diffs:
+        return dict(PINNED_HYP, _matched=True), [], len(obs)
+    keys = ['value_case', 'value_strip', 'token_case', 'token_strip', 'key_case', 'first_wins', 'empty_token', 'empty_key']
+    dom = {'value_case': (None, 'lower', 'upper'), 'token_case': (None, 'lower', 'upper'), 'key_case': (None, 'lower', 'upper')}
+    cands = []
+    for combo in itertools.product(*[dom.get(k, (PINNED_HYP[k], not PINNED_HYP[k])) for k in keys]):
+        h = dict(zip(keys, combo))
+        if all(predict_binding(t, h) == o for t, o in obs):
+            cands.append(h)
+    if cands:
+        best = min(cands, key=lambda h: sum(1 for k in keys if h[k] != PINNED_HYP[k]))
+        return dict(best, _matched=True), diffs, len(obs)
+    return dict(PINNED_HYP, _matched=False), diffs, len(obs)
+
+
+def tabulate_binding(idx, cls, fn, map_attr, extra=()):
+    """interpret add_dict_to_unit_map (and whatever it calls) with sa/ointerp.py on the BIND_TABLES sequences"""
+    from ..ointerp import Interp, FuncRef, Obj, PyExc
+    it = Interp(idx, where='C05.bind', budget=400000)
+
+    def observe(tables):
+        it.budget = 400000
+        o = Obj(cls, {map_attr: {}})
+        try:
+            for t in tables:
+                it.call_function(FuncRef(cls.mod, fn, cls), [{k: (k, v) for k, v in t.items()}], {}, None, selfobj=o)
+        except PyExc as ex:
+            return [('<raises>', str(ex))]
+        m = o.attrs.get(map_attr)
+        if not isinstance(m, dict):
+            raise AnalysisError('C05.bind: self.%s is not a dict after add_dict_to_unit_map' % map_attr)
+        return [kv for kv in m.values()]       # ointerp dicts hold key -> (key, value), in insertion order
+    return fit_binding(observe, extra)
+
+
 def str_chain(e, roots):
     """x.m1().m2() over a root name in `roots` -> (root, [m1, m2]); None when e is anything else"""
     names = []
@@ -606,80 +693,61 @@ def _own(idx, qual, name):
     return c, c.methods[name]
 
 
-def check_mechanisms(chk, idx):
+def check_mechanisms(chk, idx, an=None):
     """returns dict(first_wins=bool, preprocess=callable)"""
     R = 'C05.mech'
     out = {}
-    # -- bind_units_string: split on '|', skip empty and already-bound tokens (first binding wins)
-    c, fn = _own(idx, NWU + '.utilities.DictionaryUtility', 'bind_units_string')
-    chk.consulted(c.mod.path)
-    if len(fn.args.args) != 3:
-        raise AnalysisError('DictionaryUtility.bind_units_string: expected (dict, key, source)')
-    dname, kname, sname = [a.arg for a in fn.args.args]
-    splits = [n for n in _calls(fn, 'split') if n.args and isinstance(n.args[0], ast.Constant) and n.args[0].value == '|']
-    store = [n for n in ast.walk(fn) if isinstance(n, ast.Assign) and isinstance(n.targets[0], ast.Subscript)
-             and isinstance(n.targets[0].value, ast.Name) and n.targets[0].value.id == dname
-             and isinstance(n.value, ast.Name) and n.value.id == kname]
-    if not splits or not _calls(fn, 'strip') or not store:
-        raise AnalysisError('DictionaryUtility.bind_units_string: split/strip/store idiom not recognised')
-    guard = [n for n in ast.walk(fn) if isinstance(n, ast.If) and any(isinstance(b, ast.Continue) for b in n.body)
-             and any(isinstance(x, ast.Compare) and isinstance(x.ops[0], ast.In) and isinstance(x.comparators[0], ast.Name)
-                     and x.comparators[0].id == dname for x in ast.walk(n.test))]
-    out['first_wins'] = bool(guard)
-    allowed = set(_CASE_METHODS) | set(_STRIP_METHODS)
-    if len(splits) != 1:
-        raise AnalysisError("DictionaryUtility.bind_units_string: expected one split('|')")
-    ch = str_chain(splits[0].func.value, {sname})
-    if ch is None or set(ch[1]) - allowed:
-        raise AnalysisError("DictionaryUtility.bind_units_string: value is transformed before split('|') in a way the replay "
-                            'cannot evaluate (%s)' % _src(splits[0].func.value))
-    pre_split = ch[1]
-    loops = [n for n in ast.walk(fn) if isinstance(n, ast.For) and isinstance(n.target, ast.Name)]
-    tvars = {n.target.id for n in loops}
-    if len(store) != 1:
-        raise AnalysisError('DictionaryUtility.bind_units_string: expected one store into the map')
-    ch = str_chain(store[0].targets[0].slice, tvars)
-    if ch is None or set(ch[1]) - allowed:
-        raise AnalysisError('DictionaryUtility.bind_units_string: the stored key %s is not the split token (or a case/strip '
-                            'method chain on it)' % _src(store[0].targets[0].slice))
-    tok_tf = ch[1]
-    chk.ok(R, c.mod.path, 'DictionaryUtility.bind_units_string',
-           "value%s.split('|'); token%s stored; %s binding wins" % (''.join('.%s()' % m for m in pre_split),
-                                                                  ''.join('.%s()' % m for m in tok_tf), 'first' if guard else 'last'), fn.lineno)
-    # -- bind_dictionary: skips empty keys, delegates
-    c, fn = _own(idx, NWU + '.utilities.DictionaryUtility', 'bind_dictionary')
-    if not _calls(fn, 'bind_units_string') or not _calls(fn, 'items'):
-        raise AnalysisError('DictionaryUtility.bind_dictionary: items()/bind_units_string idiom not recognised')
-    skip_empty = any(isinstance(n, ast.If) and isinstance(n.test, ast.UnaryOp) and isinstance(n.test.op, ast.Not)
-                     and any(isinstance(b, ast.Continue) for b in n.body) for n in ast.walk(fn))
-    if not skip_empty:
-        raise AnalysisError('DictionaryUtility.bind_dictionary: empty-key skip not recognised')
-    items = [n for n in ast.walk(fn) if isinstance(n, ast.For) and isinstance(n.target, ast.Tuple) and len(n.target.elts) == 2
-             and all(isinstance(e, ast.Name) for e in n.target.elts) and isinstance(n.iter, ast.Call)
-             and isinstance(n.iter.func, ast.Attribute) and n.iter.func.attr == 'items']
-    bcalls = _calls(fn, 'bind_units_string')
-    if len(items) != 1 or len(bcalls) != 1 or len(bcalls[0].args) != 3 or bcalls[0].keywords:
-        raise AnalysisError('DictionaryUtility.bind_dictionary: `for key, value in d.items(): bind_units_string(m, key, value)` not recognised')
-    kvar, vvar = [e.id for e in items[0].target.elts]
-    kch, vch = str_chain(bcalls[0].args[1], {kvar}), str_chain(bcalls[0].args[2], {vvar})
-    if kch is None or vch is None or (set(kch[1]) | set(vch[1])) - allowed:
-        raise AnalysisError('DictionaryUtility.bind_dictionary: bind_units_string is passed %s, %s - a transformation of the '
-                            'table entry the replay cannot evaluate' % (_src(bcalls[0].args[1]), _src(bcalls[0].args[2])))
-    out['bind_tf'] = BindTf(vch[1] + pre_split, tok_tf, kch[1])
-    chk.ok(R, c.mod.path, 'DictionaryUtility.bind_dictionary',
-           'every non-empty key is bound through bind_units_string; ' + out['bind_tf'].describe(), fn.lineno)
-    # -- add_dict_to_unit_map binds into self.unit_map; the base constructor wires the BaseCurrency tables
+    # -- add_dict_to_unit_map and the helpers below it: decided by interpretation (rule C05.bind), not by shape
     c, fn = _own(idx, NWU + '.parsers.NumberWithUnitParserConfiguration', 'add_dict_to_unit_map')
     chk.consulted(c.mod.path)
-    bd = _calls(fn, 'bind_dictionary')
-    if len(bd) != 1 or len(bd[0].args) != 2 or not _self_attr(bd[0].args[1]):
-        raise AnalysisError('NumberWithUnitParserConfiguration.add_dict_to_unit_map: not bind_dictionary(d, self.<map>)')
-    out['map_attr'] = bd[0].args[1].attr
+    chk.consulted(idx.cls(NWU + '.utilities.DictionaryUtility').mod.path)
+    attrs = sorted({n.attr for n in ast.walk(fn) if _self_attr(n) and isinstance(n.ctx, ast.Load)
+                    } -
+                   {n.func.attr for n in ast.walk(fn) if isinstance(n, ast.Call) and _self_attr(n.func)})
+    if len(attrs) != 1 or len(fn.args.args) != 2:
+        raise AnalysisError('NumberWithUnitParserConfiguration.add_dict_to_unit_map(self, d): the map attribute it binds into is '
+                            'not a single self.<attr> (%s)' % attrs)
+    out['map_attr'] = attrs[0]
     reads = [n for m2 in (idx.cls(NWU + '.parsers.NumberWithUnitParser').methods.values()) for n in ast.walk(m2)
              if isinstance(n, ast.Attribute) and _src(n) == 'self.config.' + out['map_attr']]
     if not reads:
         raise AnalysisError('NumberWithUnitParser never reads config.%s, the map add_dict_to_unit_map binds into' % out['map_attr'])
-    chk.ok(R, c.mod.path, 'NumberWithUnitParserConfiguration.add_dict_to_unit_map', 'bind_dictionary(dictionary, self.%s)' % out['map_attr'], fn.lineno)
+    # probe tables: one spelling / one unit name per character that occurs anywhere in the unit tables, so that a
+    # character-level transformation (replace, translate, normalisation ...) of values or names is observed
+    chars = set()
+    if an is not None:
+        for q, k in sorted((k.qual, k) for k in idx.all_classes()):
+            if k.mod.name.startswith('recognizers_number_with_unit.resources.'):
+                for v in an.R.values(k).values():
+                    if isinstance(v, dict):
+                        for a, b in v.items():
+                            if isinstance(a, str) and isinstance(b, str):
+                                chars.update(a)
+                                chars.update(b)
+    chars.discard('|')
+    chars = sorted(chars)
+    probes = []
+    if chars:
+        probes.append([{'P': '|'.join('q%sq' % ch for ch in chars)}])
+        probes.append([{'q' + ''.join(chars) + 'q': 'p'}])
+    hyp, diffs, ntab = tabulate_binding(idx, c, fn, out['map_attr'], probes)
+    out['first_wins'] = hyp['first_wins']
+    out['bind_tf'] = hyp_tf(hyp)
+    construct = 'NumberWithUnitParserConfiguration.add_dict_to_unit_map -> DictionaryUtility.bind_dictionary / bind_units_string'
+    if not diffs:
+        chk.ok('C05.bind', c.mod.path, construct, 'reference binding semantics on %d tabulated table sequences' % ntab, fn.lineno)
+    else:
+        changed = sorted(k for k in PINNED_HYP if hyp[k] != PINNED_HYP[k]) if hyp.get('_matched') else ['outside the modelled family']
+        tabs, got, want = diffs[0]
+        chk.bad('C05.bind', c.mod.path, construct, 'differs: ' + ', '.join(changed),
+                'binding %s yields the map %s, the reference semantics (unit name as is; value stripped and split on |; empty '
+                'unit names and empty spellings skipped; first binding of a spelling wins) yields %s; %d of %d tabulated '
+                'sequences differ; changed aspect(s): %s. The table rules replay the binding %s.'
+                % (tabs, got, want, len(diffs), ntab, ', '.join(changed),
+                   'as the code now performs it' if hyp.get('_matched') else 'with the reference semantics (the new behaviour is outside the modelled family)'),
+                fn.lineno)
+    chk.ok(R, c.mod.path, 'NumberWithUnitParserConfiguration.add_dict_to_unit_map',
+           'binds into self.%s; behaviour tabulated by interpretation: %s' % (out['map_attr'], out['bind_tf'].describe()), fn.lineno)
     # -- parser key normalisation
     c, fn = _own(idx, NWU + '.parsers.NumberWithUnitParser', 'parse')
     looked = []
@@ -1185,7 +1253,7 @@ def run(chk):
         '__merge_compound_unit dereferences. All spellings of all registered tables are enumerated (exhaustive).')
     idx = get_index()
     an = Analysis(idx)
-    chk.rule('C05.mech', 'the culture-independent mechanisms the other rules re-state still have the recognised shape', floor=9)
+    chk.rule('C05.mech', 'the culture-independent mechanisms the other rules re-state still have the recognised shape', floor=7)
     chk.rule('C05.pair', 'every registered ExtractorParserModel pairs an extractor and a parser configuration of the same '
              'language and entity type; model class = registered name; merged extractor with merged parser; culture matches',
              floor=28, control=True)
@@ -1197,6 +1265,9 @@ def run(chk):
              '(suffix_list + prefix_list values vs unit_map keys); tables non-empty', floor=22, control=True)
     chk.rule('C05.merge', '{**A, **B} table merges have no unit key with differing spelling lists', floor=4, control=True)
     chk.rule('C05.side', '*PrefixList tables are wired into prefix_list and *SuffixList tables into suffix_list', floor=35, control=True)
+    chk.rule('C05.bind', 'add_dict_to_unit_map and the helpers it calls bind a table the way the table rules assume (unit name as '
+             'is, value stripped and split on |, empty names/spellings skipped, first binding wins, insertion order) - interpreted '
+             'on small table sequences', floor=1, control=True)
     chk.rule('C05.brackets', "the helper parse applies to the unit key strips exactly one enclosing bracket pair of () [] {} <> "
              '(interpreted on every key of length <= 3 over ()[]{}<>k and blank, plus longer ones)', floor=1, control=True)
     chk.rule('C05.prefix-pick', 'the prefix unit chosen left of a number is the left-most (longest) prefix match that reaches up '
@@ -1229,7 +1300,7 @@ def run(chk):
     chk.rule('C05.dangling', 'every resource / Constants attribute read by registered configuration classes and by the '
              'base number-with-unit code exists', floor=150, control=True)
 
-    mech = check_mechanisms(chk, idx)
+    mech = check_mechanisms(chk, idx, an)
     an.map_attr = mech['map_attr']
     rec, regs = read_registrations(idx)
     chk.consulted(rec.mod.path)
@@ -2274,6 +2345,14 @@ def controls(chk, mech):
         return u
     chk.control('C05.brackets', bool(bracket_mismatches(_three)) and bool(bracket_mismatches(lambda x: x))
                 and not bracket_mismatches(strip_brackets))
+    def _obs(h):
+        return lambda t: predict_binding(t, h)
+    h_last, d_last, _ = fit_binding(_obs(dict(PINNED_HYP, first_wins=False)))
+    h_low, d_low, _ = fit_binding(_obs(dict(PINNED_HYP, value_case='lower')))
+    h_ok, d_ok, _ = fit_binding(_obs(PINNED_HYP))
+    chk.control('C05.bind', bool(d_last) and h_last['first_wins'] is False and bool(d_low) and 'lower' in (h_low['value_case'], h_low['token_case'])
+                and not d_ok and bool(fit_binding(_obs(dict(PINNED_HYP, empty_token=True)))[1])
+                and bool(fit_binding(_obs(dict(PINNED_HYP, value_strip=False)))[1]))
     chk.control('C05.blank', parser_lookup(um, ' pinta', '')[0] is None)
     pre = mech['preprocess']
     chk.control('C05.case', pre('5 Rwandan Zorkmid ') == '5 rwandan zorkmid '
